@@ -225,6 +225,62 @@ theorem handlers_counterexample : ¬ no_ub_handlers_full := by
   rw [h3] at h2
   cases h2
 
+/-! ### handlers that drop references: what is true, what is proved, what is open
+
+  `no_ub_handlers_full` is false only through the known finding `cascade_steals_claim`: a dying parent takes one
+  reference from every child still linked to it, also when the application has already dropped that child's creation
+  reference and the child lives on a reference the library itself holds.  The references the library holds across a
+  handler are those of the frames of `_handle_key` / `_handle_mouse` (the window itself and the counted snapshot of
+  its children) and the counted reference `_handle_mouse` returns for the window that claimed the event.  The frames'
+  references obey a stack discipline - whenever a frame holds a child, a frame holds its parent, so a window that dies
+  has no child the frames hold - the returned claim does not (it outlives the frame of the claiming window's parent).
+  Hence the strongest statement that is true of the code as it stands:
+
+  * handlers bound on the **terminal** (they run between the frames, under the entry point's reference to the terminal
+    only) may drop anything, `tickit_window_unref` of any window and `tickit_term_unref` included: **proved**,
+    `top_no_ub` below;
+  * **key** events may be delivered to window handlers with any actions: `no_ub_key_handlers_unref` (statement, open);
+  * **mouse** events may be delivered to window handlers with any actions as long as no mouse handler claims the event
+    (returns true), or all mouse handlers free nothing: `no_ub_mouse_handlers_unref` (statement, open); with handlers
+    that free nothing it is **proved** (`no_ub_handlers_keeping`); a claiming mouse handler together with handlers that
+    drop the claiming window and its parent is the known finding (`handlers_counterexample`).
+
+  What the two open statements need beyond what is proved (Proof/LifeKeys.lean carries `1 + int i ≤ refcount i ≤
+  appRefs i + int i` through handlers that free nothing, with `Pres`: nothing is freed): (1) the invariant of the
+  frames with the stack discipline `int c > 0 → parent c = some p → int p > 0` and, for the windows the frames hold,
+  the exact count `refcount = appRefs + int` (proved so far for the root window only: `refcount_inv` (g)); (2) for the
+  destroy cascade the converse of `DropOk` (Proof/LifeDestroy.lean): a window that survives a cascade with a lower
+  count was a linked child of a window that died in it - `Casc` gives only `WEv` (count unchanged, or one less and
+  closed meanwhile) without naming the parent; with it a window held by a frame is untouched by every cascade a
+  handler can start, because a dying window is held by no frame and therefore has no child a frame holds; (3) `Pres`
+  replaced by "every window a frame holds stays alive", and the lemmas of Proof/LifeKeys.lean / LifeMouse.lean
+  (`runBinds_keep`, `keyLoop_keep`, `handleKeyBody_keep`, ...) redone over it. -/
+
+/-- OPEN (statement only, no counterexample known; covered by correspondence: generator families `handlers`,
+    `foreign`): key events delivered to window handlers with **any** actions - `tickit_window_unref` of their own window,
+    of ancestors, of any other window included. -/
+def no_ub_key_handlers_unref : Prop :=
+  ∀ (ops : List Op) (st : St), SInv .none st → (∀ op ∈ ops, op.plain = true ∨ op.penEvent = true ∨ op = .key) →
+    ∃ st', runOps extracted st ops = .ok st' ∧ SInv .none st'
+
+/-- OPEN (statement only): key and mouse events delivered to window handlers with any actions, provided that no mouse
+    handler claims the event (the case in which handlers claim and all handlers free nothing is
+    `no_ub_handlers_keeping`; claiming together with dropping contains the known finding). -/
+def no_ub_mouse_handlers_unref : Prop :=
+  ∀ (ops : List Op) (st : St), SInv .none st →
+    (∀ i b, b ∈ (getX st i).binds → b.ev = some .mouse → b.ret = false) →
+    (∀ op ∈ ops, (op.plain = true ∨ op.penEvent = true ∨ op = .key ∨ ∃ m, op = .mouse m) ∧
+      (∀ w ret acts, op = .bind w .mouse ret acts → ret = false)) →
+    ∃ st', runOps extracted st ops = .ok st' ∧ SInv .none st'
+
+/-- Instances of the two open statements that the kernel can evaluate: a key handler that drops its own window, its
+    parent and the root window; a mouse handler that does the same without claiming the event. -/
+example : (runOps extracted {} [.newTerm 6 12 false, .win 0 ⟨0, 0, 4, 8⟩ 0, .win 1 ⟨0, 0, 2, 4⟩ 0,
+    .bind 2 .key false [.unref 2, .unref 1, .unref 0], .key, .key, .«end»]).isOk = true := by decide +kernel
+
+example : (runOps extracted {} [.newTerm 6 12 false, .win 0 ⟨0, 0, 4, 8⟩ 0, .win 1 ⟨0, 0, 2, 4⟩ 0,
+    .bind 2 .mouse false [.unref 2, .unref 1, .unref 0], .mouse ⟨1, 1, 1, 1⟩, .mouse ⟨3, 1, 1, 1⟩, .«end»]).isOk = true := by decide +kernel
+
 /-! ### key and mouse events delivered to handlers that free nothing -/
 
 /-- A history with events: operations that deliver no event, `bind` of handlers (on key or mouse events) whose
@@ -545,8 +601,7 @@ theorem extractedTop_trepaired : TRepaired extractedTop :=
     `tickit_term_unref`; `tickit_term_input_push_bytes` / `_readable` / `_wait_*` / `_check_timeout_msec` with any
     decodable input; the clock; `tickit_build` for a terminal, `tickit_ref` / `tickit_unref`, `tickit_watch_later` /
     `_timer_after_msec` / `_cancel` with watches of any actions, `tickit_tick`; further terminals and SIGWINCH
-    observers; `tickit_term_set_input_fd`; printing on the mock terminal.  (`XOp.covered`; not covered:
-    `tickit_mockterm_resize`.) -/
+    observers; `tickit_term_set_input_fd`; printing on and resizing the mock terminal (`XOp.covered`). -/
 def TopHistory (ops : List XOp) : Prop := ∀ op ∈ ops, op.covered
 
 /-- **no_ub for the layer of the terminal's input and the toplevel instance**: from any state satisfying the invariant,
@@ -598,6 +653,9 @@ theorem top_lifetime_inv (start : XOp) (hstart : start.isNew = true) (ops : List
 theorem top_all_released (start : XOp) (hstart : start.isNew = true) (ops : List XOp) (h : TopHistory ops) :
     ∃ top, xrunOps extractedTop {} (start :: ops ++ [.base .«end»]) = .ok top ∧ top.anythingLeft = false ∧ top.fail = none :=
   xrun_end extractedTop_trepaired start hstart ops h
+
+example : (xrunOps extractedTop {} [.base (.newTerm 6 10 true), .mprint 5 0 [0x61, 0x62], .mresize 3 20, .mresize 8 4, .base (.act .flush),
+    .base .«end»]).isOk = true := by decide +kernel
 
 example : (match xrunOps extractedTop {} [.newtop 6 12, .base (.win 0 ⟨0, 0, 2, 2⟩ 0), .base .pen, .base (.setpen 1 (some 0)), .xnew, .xobs 0 true,
     .tobs true, .ilater [.tunref], .itimer 5 [.win (.unref 1)], .iref, .base .«end»] with
